@@ -601,11 +601,40 @@ def registry_and_algorithms(ctx, rng):
                                   f"that registers 'tenant' and 'cnum'>) failed with {o.exc!r} on header {hdr!r} ({name})", case)
 
 
+def edited_object_reused(ctx, rng):
+    """a JSON encryption object that was encrypted once is edited by the caller and handed to encrypt_json again: the header as it is THEN is what gets
+    checked - a parameter that became mistyped, unregistered or crit-violating in between makes the second call fail without output"""
+    j = J.load()
+    pt = b"c15 reuse"
+    k = j.key(gen.new_oct(128))
+    edits = [("protected", {"cty": 123}), ("protected", {"crit": ["exp"]}), ("protected", {"unknown-param": 1}), ("protected", {"x5c": "nolist"}), ("unprotected", {"jku": 5}),
+             ("unprotected", {"kid": ["a"]}), ("header", {"typ": 7}), ("header", {"x5u": "not a url"}), ("header", {"crit": "kid"}), ("protected", {"zip": 5})]
+    for where, bad in edits:
+        for cls_name in ("FlattenedJSONEncryption", "GeneralJSONEncryption"):
+            for reg_kind in ("default", "fresh"):
+                ctx.ev()
+                reg = None if reg_kind == "default" else j.jwe.JWERegistry(algorithms=["A128KW", "A128GCM"])
+                obj = getattr(j.jwe, cls_name)({"enc": "A128GCM"}, pt, {"jku": "https://example.com/k"})
+                obj.add_recipient({"alg": "A128KW"}, k)
+                first = call(j.jwe.encrypt_json, obj, None, registry=reg)
+                if not first.ok:
+                    continue
+                target = {"protected": obj.protected, "unprotected": obj.unprotected, "header": obj.recipients[0].header}[where]
+                target.update(copy.deepcopy(bad))
+                second = call(j.jwe.encrypt_json, obj, None, registry=reg)
+                merged = {**obj.protected, **(obj.unprotected or {}), **(obj.recipients[0].header or {})}
+                judge(ctx, {"op": f"jwe.encrypt_json[{cls_name[:4]},object edited after an earlier encryption]", "pos": where, "mutation": "reuse:" + next(iter(bad)), "mname": next(iter(bad)),
+                           "alg": "A128KW", "enc": "A128GCM", "edited_object_reused": True}, merged, "jwe", "produce", Cfg("default", True, {}), "A128KW", second)
+                ctx.count("edited_objects_reused")
+
+
 def run_shard(ctx):
     J.load()
     rng = ctx.rng
     if ctx.shard == 1:
         registry_and_algorithms(ctx, rng)
+    if ctx.shard == 2:
+        edited_object_reused(ctx, rng)
     work = []
     for cfg in configs("jws"):
         for alg in (["HS256", "ES256"] if ctx.tier == "quick" else ["HS256", "ES256", "RS256", "EdDSA", "PS384"]):
@@ -642,6 +671,8 @@ REQUIRE = [("cases", 4000, "headers judged"), ("spec_accept", 400, "headers the 
 
 def replay(ctx, case):
     J.load()
+    if case.get("edited_object_reused"):
+        return edited_object_reused(ctx, ctx.rng)
     if case.get("both_registry_and_algorithms"):
         return registry_and_algorithms(ctx, ctx.rng)
     for cfg in configs("jws") + configs("jwe"):
